@@ -247,6 +247,16 @@ class Core(Monitor):
             raise StopRun()
         ctx.current_handler = handler
         ctx.now = ctx.pending.get(handler)
+        guard = ctx.scenario.get("storm_guard")
+        if guard and ctx.now is not None and ctx.step % int(guard[0]) == 0:
+            # an event storm (two unlike point charges without a repulsive core falling onto each other): the run is
+            # stopped when ``guard[0]`` events advance the clock by less than ``guard[1]``
+            t = ctx.now.quotient + ctx.now.remainder
+            last = getattr(self, "_storm_reference", None)
+            if last is not None and t - last < guard[1]:
+                ctx.notes["event_storm_at"] = t
+                raise StopRun()
+            self._storm_reference = t
 
     def on_insert_end(self, state_handler, out_state):
         ctx = self.ctx
